@@ -215,6 +215,16 @@ def has_filtered(p):
     return False
 
 
+def strip_filtered(p):
+    """the pattern as the interpreter effectively reads it under the listed finding: filtered keys dropped at every level
+    (sets of unhashable results do not occur: set members are scalars / regexes in the generated domain)"""
+    if isinstance(p, dict):
+        return {k: strip_filtered(x) for k, x in p.items() if k not in FILTERED}
+    if isinstance(p, list):
+        return [strip_filtered(x) for x in p]
+    return p
+
+
 def to_pattern_like(ref):
     """Convert what the interpreter hands to the scoring function back into the
     oracle's pattern language (compiled regex -> Rx)."""
@@ -359,6 +369,12 @@ def run_pair(case):
     except Exception as e:
         got = None
         exc = "%s: %s" % (type(e).__name__, str(e)[:150])
+    if base["filtered"] and got is not None:
+        # does "filtered keys are not compared" alone explain what was observed?
+        try:
+            base["filtered_explains"] = matches(strip_filtered(p), v) == got
+        except Exception:
+            base["filtered_explains"] = False
     obs = {
         "contract_evaluations": _C["evals"],
         "spec_match": int(exp),
@@ -540,10 +556,12 @@ def classify(r):
         return "pattern-literal-aliased-with-a-mutated-value"
     if r.get("scenario"):
         return "instance-reference:" + r["scenario"]
+    if r.get("filtered") and r.get("filtered_explains"):
+        return "filtered-keys-not-compared"
     if r.get("set_bigger"):
         return "set-pattern-larger-than-value"
     if r.get("filtered"):
-        return "filtered-keys-not-compared"
+        return "filtered-keys-not-compared+unexplained"
     w = r.get("witness", {})
     if w.get("exception"):
         return "exception:" + w["exception"].split(":")[0]
